@@ -373,7 +373,16 @@ func checkC15inner(c CaseC15, info *Info) *Failure {
 		}
 		st, swhy := refSeqOutcome(b)
 		ms, serr := mxj.NewMapXmlSeq(b, strings.HasPrefix(c.Option, "cast"))
+		if c.Option == "xmpp" && bytes.Contains(bytes.ToLower(b), []byte("stream")) {
+			// (the documented early return at an XMPP <stream:stream> start tag, as for NewMapXml above)
+			info.Unspecified("XMPP stream start tag under HandleXMPPStreamTag (documented early return)")
+			st = "unjudged"
+			if serr == nil {
+				ms.Xml()
+			}
+		}
 		switch st {
+		case "unjudged":
 		case "ok":
 			if serr != nil {
 				return failf("accept-reject-mismatch", "NewMapXmlSeq(%q) option %q: RawToken stream is fine, mxj error %v", b, c.Option, serr)
